@@ -21,9 +21,10 @@ fn main() {
         // determinism of the harness itself: same seeds, 16 threads vs 1 thread vs a fresh process
         install_panic_hook();
         let seed: u64 = std::env::var("VERIF_SEED").ok().and_then(|s| s.parse().ok()).unwrap_or(20260924);
+        let nruns: u64 = std::env::var("VERIF_SELFTEST_RUNS").ok().and_then(|s| s.parse().ok()).unwrap_or(150);
         if let Ok(id) = std::env::var("VERIF_SELFTEST_DIGEST") {
             let prop = props::by_id(&id).expect("property");
-            println!("{}", verif_sim::simkit::runner::digest_batch(prop.as_ref(), seed, 150, 3, Tier::Quick));
+            println!("{}", verif_sim::simkit::runner::digest_batch(prop.as_ref(), seed, nruns, 3, Tier::Quick));
             return;
         }
         let ids: Vec<String> = if args.len() > 2 { args[2..].iter().map(|s| s.to_uppercase()).collect() } else { props::ALL.iter().map(|s| s.to_string()).collect() };
@@ -31,9 +32,9 @@ fn main() {
         for id in ids {
             let Some(prop) = props::by_id(&id) else { continue };
             if id == "C20" { println!("selftest {}: skipped (its subject is nondeterminism of the repo's simulators; it proves its own determinism in its evidence)", id); continue; }
-            let a = verif_sim::simkit::runner::digest_batch(prop.as_ref(), seed, 150, 16, Tier::Quick);
-            let b = verif_sim::simkit::runner::digest_batch(prop.as_ref(), seed, 150, 1, Tier::Quick);
-            let c = std::process::Command::new(std::env::current_exe().unwrap()).arg("selftest").env("VERIF_SELFTEST_DIGEST", &id).env("VERIF_SEED", seed.to_string()).output().ok().and_then(|o| String::from_utf8_lossy(&o.stdout).trim().parse::<u64>().ok());
+            let a = verif_sim::simkit::runner::digest_batch(prop.as_ref(), seed, nruns, 16, Tier::Quick);
+            let b = verif_sim::simkit::runner::digest_batch(prop.as_ref(), seed, nruns, 1, Tier::Quick);
+            let c = std::process::Command::new(std::env::current_exe().unwrap()).arg("selftest").env("VERIF_SELFTEST_DIGEST", &id).env("VERIF_SEED", seed.to_string()).env("VERIF_SELFTEST_RUNS", nruns.to_string()).output().ok().and_then(|o| String::from_utf8_lossy(&o.stdout).trim().parse::<u64>().ok());
             let ok = a == b && Some(a) == c;
             println!("selftest {}: 16 threads {:016x}, 1 thread {:016x}, fresh process {} -> {}", id, a, b, c.map(|x| format!("{:016x}", x)).unwrap_or_else(|| "?".into()), if ok { "deterministic" } else { "NONDETERMINISTIC" });
             if !ok { bad += 1; }
